@@ -252,6 +252,10 @@ fn run_input(w: &ChildWorld, kind: &str, bytes: &[u8]) -> (String, u64, String) 
             let _ = p.tracing_level();
             detail.push_str(&format!("a{}d{}", p.access_structure.attributes().count(), p.access_structure.dimensions().count()));
         }
+        "usk-parse" => {
+            let u = parse!(UserSecretKey);
+            detail.push_str(&format!("t{}", u.tracing_level()));
+        }
         "msk-parse" => {
             let m = parse!(MasterSecretKey);
             detail.push_str(&format!("a{}d{}", m.access_structure.attributes().count(), m.access_structure.dimensions().count()));
